@@ -368,8 +368,14 @@ class RuntimeState(utils.NiceRepr):
                 elif action == 'assign':
                     state[key] = value
                 elif action == 'set.add':
+                    if directive.inline and key not in state:
+                        # The inline overlay starts from a copy of the
+                        # persistent set, which itself stays untouched.
+                        state[key] = set(self._global_state[key])
                     state[key].add(value)
                 elif action == 'set.remove':
+                    if directive.inline and key not in state:
+                        state[key] = set(self._global_state[key])
                     try:
                         state[key].remove(value)
                     except KeyError:
